@@ -142,7 +142,7 @@ pub fn run(only: &[String]) -> Vec<String> {
             verif_case(format!("history: add {:?}; union {:?}", adds, unions));
             if let Err(e) = run_history(&adds, &unions) { if n < 3 { n += 1; fails.push(format!("FAIL EGraph::union C08:history.consistent history add {:?}; union {:?}: {}", adds, unions, e)); } }
         }
-        let seeds: u64 = if deep { 6000 } else { 600 };
+        let seeds: u64 = if deep { verif_scale(6000) } else { 600 };
         for seed in 1..=seeds {
             let mut r = Rng(seed.wrapping_mul(0x9E3779B97F4A7C15).wrapping_add(1));
             let adds: Vec<String> = (0..6).map(|_| term(&mut r, 2)).collect();
